@@ -154,7 +154,14 @@ class Gen:
         r = self.r
         nreq = r.randint(0, 2)
         ndef = r.randint(0, 1) if r.random() < 0.35 else 0
-        splat = self.name("r") if r.random() < 0.2 else None
+        splat = self.name("r") if r.random() < 0.25 else None
+        # the splat may sit in the middle: required parameters, ...splat, then trailing parameters
+        # (required first, defaulted last)
+        splat_pos = None
+        if splat is not None and r.random() < 0.5:
+            splat_pos = r.randint(0, nreq)
+            if r.random() < 0.6:
+                ndef = r.randint(1, 2)
         params = []
         self.scopes.append({})
         saved_loop = self.loop_depth
@@ -180,6 +187,8 @@ class Gen:
         self.scopes.pop()
         if register is not None:
             self.funcs.append((register, nreq, nreq + ndef + (2 if splat else 0), INT))
+        if splat_pos is not None:
+            return ("lambda", params + defaults, splat, body, splat_pos)
         return ("lambda", params + defaults, splat, body)
 
     # ---------------------------------------------------------------- loops
@@ -187,14 +196,20 @@ class Gen:
         r = self.r
         cs = []
         n = r.choice([1, 1, 1, 2, 2, 3])
+        clause_vars = []
         for i in range(n):
             k = r.random()
             if i > 0 and k < 0.2:
                 cs.append(("if", self.expr(INT, depth + 1)))
                 continue
-            if i > 0 and k < 0.35:
-                v = self.name("m")
-                e = self.expr(INT, depth + 1)
+            if (i > 0 and k < 0.38) or (i == 0 and k < 0.07):
+                # mid-loop (or leading) declaration clause; sometimes it shadows an earlier clause variable
+                if clause_vars and r.random() < 0.35:
+                    v = r.choice(clause_vars)
+                    e = ("bin", r.choice(["*", "+"]), ("var", v), ("int", r.randint(2, 10)))
+                else:
+                    v = self.name("m")
+                    e = self.expr(INT, depth + 1)
                 cs.append(("let", v, e))
                 self.declare(v, INT)
                 continue
@@ -202,17 +217,20 @@ class Gen:
                 v = self.name("x")
                 cs.append(("in", v, self.expr(LST, depth + 1)))
                 self.declare(v, INT)
+                clause_vars.append(v)
             elif k < 0.9:
                 iv, v = self.name("i"), self.name("x")
                 cs.append(("idx", iv, v, self.expr(LST, depth + 1)))
                 self.declare(iv, INT)
                 self.declare(v, INT)
+                clause_vars += [iv, v]
             else:
                 a, b = self.name("a"), self.name("b")
                 pairs = ("list", [("list", [("int", r.randint(0, 5)), ("int", r.randint(0, 5))]) for _ in range(r.randint(0, 3))])
                 cs.append(("in2", a, b, pairs))
                 self.declare(a, INT)
                 self.declare(b, INT)
+                clause_vars += [a, b]
         return cs
 
     def for_expr(self, depth, want):
@@ -388,7 +406,12 @@ class Gen:
                 if pk < 0.55:
                     pat = ("lit", r.randint(0, 3))
                 elif pk < 0.85:
-                    bn = self.name("s")
+                    outer_ints = [n_ for n_ in self.readonly if self.scopes[0].get(n_) == INT]
+                    if outer_ints and r.random() < 0.4:
+                        # (C17) an arm whose pattern shadows an outer variable: other arms still mean the outer one
+                        bn = r.choice(sorted(outer_ints))
+                    else:
+                        bn = self.name("s")
                     self.declare(bn, INT)
                     pat = ("bind", bn)
                 else:
@@ -417,7 +440,28 @@ class Gen:
     # ---------------------------------------------------------------- hazard templates
     def hazard(self):
         r = self.r
-        k = r.randrange(8)
+        k = r.randrange(10)
+        if k == 8:
+            # a leading declaration clause lives in the loop's scope only: the name can be declared
+            # again afterwards (and a second such loop in the same scope is fine)
+            t, i, acc = self.name("t"), self.name("i"), self.name("n")
+            self.declare(acc, INT)
+            loop = lambda c: ("for", [("let", t, ("int", c)), ("in", i, ("list", [("int", 1), ("int", 2)]))], "do",
+                              ("opassign", acc, "+", ("bin", "*", ("var", t), ("var", i))), None, None)
+            tail = r.choice([("decl", t, ("str", "outer")), ("print", ("try", ("var", t), ("name", self.name("e")), ("str", "unbound")))])
+            return [("decl", acc, ("int", 0)), loop(r.randint(2, 5)), loop(r.randint(2, 5)), tail, ("print", ("var", acc))]
+        if k == 9:
+            # splat in the middle followed by defaulted parameters, called with every small arity
+            f = self.name("f")
+            a, rr, x, y = self.name("p"), self.name("r"), self.name("p"), self.name("p")
+            self.declare(f, FUN)
+            two = r.random() < 0.5
+            params = [(a, None), (x, ("int", 7))] + ([(y, ("int", 8))] if two else [])
+            body = ("list", [("var", a), ("var", rr), ("var", x)] + ([("var", y)] if two else []))
+            lam = ("lambda", params, rr, body, 1)
+            self.funcs.append((f, 1, 4, LST))
+            calls = [("call", ("var", f), [("int", 10 + j) for j in range(nargs)]) for nargs in range(1, 5)]
+            return [("decl", f, lam), ("print", ("list", calls))]
         if k == 0:
             # closures created per loop iteration and called later
             fs, x, f = self.name("fs"), self.name("x"), self.name("g")
